@@ -57,7 +57,14 @@ JudgeSync(e) ==
   \cup (IF x.res.kind = "ret" /\ e.kind = "ret" /\ x.val # e.val THEN {"Sync_value"} ELSE {})
   \cup (IF e.lazy /\ SyncOffered(e.loc, e.disabled) /\ e.kind # "or_return" /\ ~e.instantiated THEN {"Sync_lazy"} ELSE {})
 
-Judge(e) == IF e.t = "api" THEN JudgeApi(e) ELSE IF e.t = "sync" THEN JudgeSync(e) ELSE JudgeStage(e)
+JudgeProxy(e) ==
+  LET x == ProxyInvoke(AsSet(e.rawen), AsSet(e.en), AsSet(e.dis), e.op, e.via) IN
+     (IF AsSet(e.enabled) # ProxyEnabled(AsSet(e.rawen), AsSet(e.en), AsSet(e.dis)) THEN {"Proxy_enabled"} ELSE {})
+  \cup (IF x.kind # e.kind THEN {"Proxy_kind"} ELSE {})
+  \cup (IF x.kind = "raise" /\ e.kind = "raise" /\ x.cls # e.cls THEN {"Proxy_exc"} ELSE {})
+
+Judge(e) == IF e.t = "api" THEN JudgeApi(e) ELSE IF e.t = "sync" THEN JudgeSync(e)
+            ELSE IF e.t = "proxy" THEN JudgeProxy(e) ELSE JudgeStage(e)
 TraceInit == l = 0
 TraceNext == /\ l < Len(Tr) /\ l' = l + 1
              /\ Report(Tr[l'].tid, Tr[l'].i, Judge(Tr[l']))
